@@ -114,25 +114,20 @@ def local_name(qname: str) -> str:
     return split_qname(qname)[1]
 
 
-NCNAME_PUNCTUATION = {"\u00b7", "\u0387", ".", "-", "_"}
+# NameStartChar (without the colon) and NameChar of XML 1.0, fifth edition
+NCNAME_START = (
+    "A-Z_a-z\u00c0-\u00d6\u00d8-\u00f6\u00f8-\u02ff\u0370-\u037d\u037f-\u1fff"
+    "\u200c-\u200d\u2070-\u218f\u2c00-\u2fef\u3001-\ud7ff\uf900-\ufdcf"
+    "\ufdf0-\ufffd\U00010000-\U000effff"
+)
+NCNAME_REGEX = re.compile(
+    f"[{NCNAME_START}][{NCNAME_START}.0-9\u00b7\u0300-\u036f\u203f-\u2040-]*"
+)
 
 
 def is_ncname(name: str | None) -> bool:
     """Verify given string is a valid ncname."""
-    if not name:
-        return False
-
-    char = name[0]
-    if not char.isalpha() and char != "_":
-        return False
-
-    for char in name[1:]:
-        if char.isalpha() or char.isdigit() or char in NCNAME_PUNCTUATION:
-            continue
-
-        return False
-
-    return True
+    return bool(name and NCNAME_REGEX.fullmatch(name))
 
 
 def is_uri(uri: str | None) -> bool:
